@@ -410,6 +410,7 @@ CLAUSES = {
 
 
 def explore(ctx):
+    ctx.use_thorough_bounds('thorough bounds take about two seconds')
     keys30 = list(P.KEYS30)
     ctx.bound("keys", keys30)
     if ctx.want("key_notes"):
